@@ -1,6 +1,6 @@
 /-
 C17 — Bernese STA: which TYPE 002 records the writer emits (model of `_get_object_for_date`, `_get_events`, the loop over
-`_pairwise(sorted(events.keys()))` of writers/bernese_sta.py).  Dates are integers (seconds); an equipment history is the
+`_pairwise(sorted(dates))` of writers/bernese_sta.py).  Dates are integers (seconds); an equipment history is the
 list of its entries in dictionary order: `(from, to, cls)`, `cls` identifying what `skip_firmware` compares (receiver type
 and serial number).  Mathlib-free; executed by the driver.
 -/
@@ -49,6 +49,15 @@ def eventDates (skipFirmware : Bool) (rcv ant ecc : Hist) : List Int :=
   sortDates (rcvEventsFrom skipFirmware rcv none rcv ++ ant.map (·.from_) ++ ecc.map (·.from_) ++
     (match ecc.getLast? with | some e => [e.to_] | none => []))
 
+/-- the ends of entries after which the history does not go on (no entry starts there): an interruption or the end -/
+def closingDates (h : Hist) : List Int :=
+  (h.filter fun e => !(h.any fun x => decide (x.from_ = e.to_))).map (·.to_)
+
+/-- the dates between which TYPE 002 records are written: the event dates and the closing dates of the three histories
+(so that no record claims equipment beyond the end of its entry) -/
+def recordDates (skipFirmware : Bool) (rcv ant ecc : Hist) : List Int :=
+  sortDates (eventDates skipFirmware rcv ant ecc ++ closingDates rcv ++ closingDates ant ++ closingDates ecc)
+
 def pairwise : List Int → List (Int × Int)
   | a :: b :: r => (a, b) :: pairwise (b :: r)
   | _ => []
@@ -61,10 +70,10 @@ structure Record where
   ecc : Entry
   deriving DecidableEq, Repr
 
-/-- the TYPE 002 records: one per pair of consecutive event dates at whose start a receiver, an antenna and an
+/-- the TYPE 002 records: one per pair of consecutive record dates at whose start a receiver, an antenna and an
 eccentricity are defined -/
 def staRecords (skipFirmware : Bool) (rcv ant ecc : Hist) : List Record :=
-  (pairwise (eventDates skipFirmware rcv ant ecc)).filterMap fun p =>
+  (pairwise (recordDates skipFirmware rcv ant ecc)).filterMap fun p =>
     match objectForDate p.1 rcv, objectForDate p.1 ant, objectForDate p.1 ecc with
     | some r, some a, some e => some ⟨p.1, p.2, r, a, e⟩
     | _, _, _ => none
